@@ -20,8 +20,8 @@ Ry, eV, bohr = sp.symbols("Ry eV bohr", **P)
 NA = sp.Symbol("NA", **P)       # Avogadro constant (physical quantity, 1/mol)
 HC = sp.Symbol("HC", **P)       # Planck constant times c (J m)
 KB = sp.Symbol("KB", **P)       # Boltzmann constant
-HPL = sp.Symbol("HPLANCK", **P)
 CLIGHT = sp.Symbol("CLIGHT", **P)
+HPL = HC / CLIGHT               # the Planck constant itself: h * c is the atom HC, so a product spelled h * c and the tabulated "h c" agree
 
 kg = 1000 * g
 J = kg * m ** 2 / s ** 2
@@ -47,13 +47,14 @@ PHYSICAL_CONSTANTS = {
     "Boltzmann constant in eV/K": (KB, eV / K),
     "Boltzmann constant": (KB, J / K),
     "Planck constant": (HPL, J * s),
+    "reduced Planck constant": (HPL / (2 * sp.pi), J * s),
     "speed of light in vacuum": (CLIGHT, m / s),
 }
 
 
 # scipy.constants.<name> (plain floats in SI units) -> key of PHYSICAL_CONSTANTS
 SCIPY_DIRECT = {"Avogadro": "Avogadro constant", "N_A": "Avogadro constant", "Boltzmann": "Boltzmann constant", "k": "Boltzmann constant",
-                "Planck": "Planck constant", "h": "Planck constant", "c": "speed of light in vacuum", "speed_of_light": "speed of light in vacuum"}
+                "Planck": "Planck constant", "h": "Planck constant", "hbar": "reduced Planck constant", "c": "speed of light in vacuum", "speed_of_light": "speed of light in vacuum"}
 
 
 def unit_from_name(name: str):
